@@ -9,6 +9,7 @@ package barrier
 // only tolerated non-error read of a moved record is a v1 (legacy) transplant.
 
 import (
+	"strings"
 	"bytes"
 	"encoding/binary"
 	"fmt"
@@ -37,7 +38,11 @@ func TestVerifC01Tamper(t *testing.T) {
 			t.Fatal(err)
 		}
 	}()
-	keys := []string{"k", "a/b", "a/c", "core/x"}
+	// the long keys differ only in their last byte, after 305 / 1205 common bytes:
+	// binding that covers only a prefix of the storage key lets them be swapped
+	keys := []string{"k", "a/b", "a/c", "core/x",
+		"long/" + strings.Repeat("x", 300) + "a", "long/" + strings.Repeat("x", 300) + "b",
+		"long/" + strings.Repeat("y", 1200) + "a", "long/" + strings.Repeat("y", 1200) + "b"}
 	vals := c01Values()
 	count := 0
 	for _, version := range []byte{AESGCMVersion1, AESGCMVersion2} {
